@@ -53,7 +53,7 @@ def plan(tier):
     return 200 if tier == "quick" else 2000
 
 
-VARIANTS = ["clean"] * 6 + ["connector"] * 3 + ["same_unit"] * 2 + ["end_start", "end_start_open", "sym_unit", "zero_width", "broad_gauss", "ambiguous_terminal", "same_atom_unit",
+VARIANTS = ["clean"] * 6 + ["connector"] * 3 + ["same_unit"] * 2 + ["end_start_two"] * 2 + ["end_start", "end_start_open", "sym_unit", "zero_width", "broad_gauss", "ambiguous_terminal", "same_atom_unit",
                           "symmetric_product"]
 
 
@@ -103,6 +103,12 @@ def spec_from_seed(run_seed, tier):
     if variant == "end_start":
         u, dist = blocks[0]
         text = "{[]" + u.format("[<]", "[>]") + "; [<]" + rnd.choice(["[H]", "F", "Br"]) + ", [>]" + rnd.choice(["Cl", "I"]) + " []}" + dist
+    elif variant == "end_start_two":
+        # two end groups WITHOUT heavy-atom mass compete for the start ([H] and [2H]: the finding about the start group's mass
+        # does not apply), a suffix closes the far end: probability = weight share of the start group x block law
+        u, dist = blocks[0]
+        w1, w2 = rnd.choice([("", "|3|"), ("|3|", ""), ("|0.5|", "|2|"), ("", ""), ("|7|", "|1|")])
+        text = "{[]" + u.format("[<]", "[>]") + "; [<" + w1 + "][H], [<" + w2 + "][2H] [>]}" + dist + rnd.choice(["CO", "Cl", "F", "CC"])
     elif variant == "end_start_open":
         u, dist = blocks[0]
         text = "{[]" + u.format("[<]", "[>]") + "; " + rnd.choice(["[H]", "F", "Br"]) + "[>] [<]}" + dist + rnd.choice(["Cl", "I"])
@@ -135,7 +141,7 @@ def spec_from_seed(run_seed, tier):
             poison = {"text": ppre + "{[>]" + pu.format("[<]", "[>]") + "[<]}|gauss(%r, 0)|" % round(2.5 * archetypes.unit_mass(pu), 2) + psuf,
                       "smiles": (ppre if ppre != "[H]" else "[H]") + body * 3 + psuf}
     return {"kind": "ensprob", "prop": "C19", "text": text, "tags": tags, "seed": rnd.randrange(1 << 30), "perm_seed": rnd.randrange(1000),
-            "poison": poison}
+            "poison": poison, "start_choice": rnd.choice(["first", "last"]) if variant == "end_start_two" else "first"}
 
 
 def input_features(ast):
@@ -145,7 +151,11 @@ def input_features(ast):
     feats = []
     first = ast.elements[0]
     if hasattr(first, "dist") and first.left.sym == "":
-        feats.append("start=end_group")
+        # (the finding is about the MASS of the starting end group: end groups without heavy atoms are not affected)
+        if any(t.mass > 0 for t in first.ends):
+            feats.append("start=end_group")
+        else:
+            feats.append("start=massless_end_group")
     for e in ast.elements:
         if hasattr(e, "dist") and e.dist.family == "gauss":
             mu, sig = e.dist.params
@@ -235,7 +245,7 @@ def execute(spec):
     def run_with(us):
         class QSched(Scheduler):
             def __init__(self2):
-                super().__init__(spec["seed"], choice_policy="first", draw_policy="natural", budget=6000)
+                super().__init__(spec["seed"], choice_policy=spec.get("start_choice", "first"), draw_policy="natural", budget=6000)
 
             def _policy_u(self2):
                 k = (self2.draw_ctx or {}).get("block", 0)
@@ -368,6 +378,15 @@ def execute(spec):
                     stats["preceding_failed_queries"] = 1
             except Exception:
                 pass
+        # probability of the starting end group (massless end-group start): its weight share among all end-group descriptors
+        p_start = 1.0
+        if "variant:end_start_two" in spec.get("tags", []):
+            from ..notation import weights_rule
+
+            e0 = ast.elements[0]
+            ws = weights_rule([t.descs[k].weight for t, k in e0.ebonds()])
+            p_start = ws[0] if spec.get("start_choice", "first") == "first" else ws[-1]
+            stats["start_group_probability_used"] = 1
         for combo in combos:
             us = [rep_u[b][k] for b, k in enumerate(combo)]
             try:
@@ -377,7 +396,7 @@ def execute(spec):
             if ns != combo:
                 viol("oracle_inconsistent", f"quantiles {us} were expected to give lengths {combo}, got {ns}")
                 break
-            p_gen = 1.0
+            p_gen = p_start
             for b, k in enumerate(combo):
                 p_gen *= P[b][k]
             try:
